@@ -13,11 +13,16 @@ INVS = {
     "C01": ["C01_Sound", "C01_NoStuck", "C01_Handles"],
     "C02": ["C02_Complete", "SpecTabOK"],
     "C06": ["C06_FirstBad", "C06_NoDiverge", "C01_NoStuck", "SpecTabOK"],
+    "C04": ["C04_Behaviour"],
 }
 
 
 def population(ctx):
     s = ctx.seed
+    if ctx.prop == "C04":
+        if ctx.quick():
+            return ["-corpus", conf.CORPUS, "-nexpr", 150, "-nrand", 150]
+        return ["-corpus", conf.CORPUS, "-nexpr", 1500, "-nrand", 1500]
     if ctx.quick():
         return ["-corpus", conf.CORPUS, "-small-max", 3, "-small-slices", 24, "-small-slice", s % 24,
                 "-nrand", 220, "-ndp", 60, "-nctx", 80, "-nexpr", 40]
@@ -51,16 +56,19 @@ def run_driver(ctx, replay):
                              heap="3g", extra=["-continue"], extra_files={cfgname: os.path.join(ctx.work, cfgname)})
     require_clean(results)
     add_tlc_cov(ctx, results, "LRDriver over recorded dense tables, every input up to the bound (ConfDriver.tla)")
-    ngram = ncf = ninputs = ninputs_cf = 0
+    ngram = ncf = ninputs = ninputs_cf = ndecided = ninputs_decided = 0
     cases = {c["id"]: c for c in json.load(open(os.path.join(out, "cases.json")))}
     for sf, res in results:
         obs = json.load(open(sf))
-        for m in re.finditer(r'<<"GRAMMAR", (\d+), (TRUE|FALSE), (\d+), (\d+)>>', res.out):
+        for m in re.finditer(r'<<"GRAMMAR", (\d+), (TRUE|FALSE), (\d+), (\d+), (TRUE|FALSE)>>', res.out):
             ngram += 1
             ninputs += int(m.group(3))
             if m.group(2) == "TRUE":
                 ncf += 1
                 ninputs_cf += int(m.group(3))
+            elif m.group(5) == "TRUE":
+                ndecided += 1
+                ninputs_decided += int(m.group(3))
         seen = set()
         for name, vars_, txt in res.violations:
             if name == "Report":
@@ -83,9 +91,13 @@ def run_driver(ctx, replay):
     ctx.cov["traces_validated_against_impl"] += summary["outcomes"].get("ok", 0)
     ctx.cov["evaluations"] += ninputs
     ctx.cov["driver_level"] = {"grammars": ngram, "conflict_free": ncf, "inputs": ninputs, "inputs_on_conflict_free": ninputs_cf,
+                               "conflicted_but_decided": ndecided, "inputs_on_decided": ninputs_decided,
                                "kmax": kmax, "limit_per_grammar": limit}
     ctx.cov["samples"] += conf.samples_from(shards, 3)
     if not replay:
-        if ngram < ctx.pick(250, 4000) or ncf < ctx.pick(120, 2000):
+        if prop == "C04":
+            if ndecided < ctx.pick(60, 600):
+                raise Inconclusive("vacuity: only %d grammars with decided conflicts" % ndecided)
+        elif ngram < ctx.pick(250, 4000) or ncf < ctx.pick(120, 2000):
             raise Inconclusive("vacuity: %d grammars, %d conflict-free" % (ngram, ncf))
     return ctx.cov["driver_level"]
